@@ -13,3 +13,4 @@ import Argot.Props.C01
 import Argot.Props.C14
 import Argot.Props.C02
 import Argot.Props.C10
+import Argot.Props.C18
